@@ -1311,6 +1311,23 @@ func (x *Exec) pureApp(fr *Frame, st *State, key string, con *Contract, sig *typ
 	return res
 }
 
+// byteContent: the content term of a byte slice, or of a byte array value
+func (e *SpecEnv) byteContent(n ast.Expr) (content string, v Val) {
+	v = e.eval(n)
+	switch v.K {
+	case KSlice:
+		return e.x.contentOf(e.st, v), v
+	case KArr:
+		fn := "arrcontent." + typeName(v.T)
+		e.x.decls.Fun(fn, []string{"Val"}, "Val")
+		e.x.decls.Fun(fn+".inv", []string{"Val"}, "Val")
+		e.x.injective(fn)
+		return "(" + fn + " " + v.S + ")", v
+	}
+	sfail("cmpBytes: %s is neither a byte slice nor a byte array", exprString(n))
+	return "", v
+}
+
 // bodyHasPureCall: does the expression call anything but builtins (a cheap syntactic test)?
 func (x *Exec) bodyHasPureCall(n ast.Expr) bool {
 	found := false
@@ -1332,7 +1349,7 @@ func (x *Exec) bodyHasPureCall(n ast.Expr) bool {
 
 var specBuiltinNames = map[string]bool{"forall": true, "exists": true, "implies": true, "iff": true, "old": true, "len": true, "cap": true, "val": true, "has": true,
 	"ite": true, "min": true, "max": true, "abs": true, "content": true, "strof": true, "fresh": true, "isNil": true, "unchanged": true, "gh": true, "pairkey": true,
-	"frameElems": true, "frameMaps": true, "sameSlice": true, "sameArray": true, "held": true, "rheld": true, "allocated": true, "bytesEq": true, "typeIs": true, "forallKeys": true, "existsKeys": true,
+	"frameElems": true, "frameMaps": true, "cmpBytes": true, "arrayOf": true, "offsetOf": true, "sameSlice": true, "sameArray": true, "held": true, "rheld": true, "allocated": true, "bytesEq": true, "typeIs": true, "forallKeys": true, "existsKeys": true,
 	"int": true, "int64": true, "uint64": true, "uint32": true, "uint16": true, "uint8": true, "uint": true, "int32": true, "byte": true, "mathint": true}
 
 // evalCallerSide evaluates a callee postcondition at a call site; clauses that talk about the callee's local variables
@@ -1865,6 +1882,17 @@ func (e *SpecEnv) builtinSpec(name string, c *ast.CallExpr) (Val, bool) {
 			return true
 		}
 		return bval(f), true
+	case "cmpBytes":
+		// cmpBytes(a, b): what bytes.Compare returns for the contents of two byte slices / byte arrays
+		ca, va := e.byteContent(c.Args[0])
+		cb, vb := e.byteContent(c.Args[1])
+		eq := sEq(ca, cb)
+		if va.K == KArr && vb.K == KArr {
+			eq = sEq(va.S, vb.S)
+		} else if va.K == KSlice && vb.K == KSlice {
+			eq = e.x.contentEq(e.st, va, vb)
+		}
+		return intVal(e.x.cmpContentTerm(e.st, ca, cb, eq), types.Typ[types.Int]), true
 	case "frameMaps":
 		// frameMaps(m): every map of m's type that existed at function entry, other than old(m), has its entry content (domain,
 		// values, length).  Proved with a skolem reference; assumed after a loop-head havoc as render-time facts on the fresh bases.
